@@ -3,6 +3,7 @@ package main
 import (
 	"go/constant"
 	"go/token"
+	"math"
 	"strings"
 	"time"
 
@@ -218,19 +219,34 @@ func ruleTimeParams(r *Run) {
 			bad = true
 			os.Fail(r.pos(pst.Pos()), "no success path")
 		}
-		// defaultStep >= 1s: time.Duration(math.Max(x, c>=1)) * time.Second
+		// defaultStep >= 1s: the float that is converted to the returned duration has lower bound >= 1
 		okMax := false
-		for _, c := range callsIn(dst) {
-			if call, ok := c.(*ssa.Call); ok && callIs(call, "math", "Max") {
-				for _, a := range call.Call.Args {
-					if cv, ok := constOf(a); ok {
-						f, _ := constant.Float64Val(cv)
-						if f >= 1 {
-							okMax = true
+		{
+			nRet, nOK := 0, 0
+			for _, gf := range []*ssa.Function{dst} {
+				for _, ret := range returnsOf(gf) {
+					if len(ret.Results) != 1 {
+						continue
+					}
+					nRet++
+					// time.Duration(seconds) * time.Second, in either operand order
+					v := stripConv(ret.Results[0])
+					var secs ssa.Value
+					if b, ok := v.(*ssa.BinOp); ok && b.Op == token.MUL {
+						for _, pair := range [][2]ssa.Value{{b.X, b.Y}, {b.Y, b.X}} {
+							if c, ok := constInt(pair[1]); ok && c == int64(time.Second) {
+								if cv, ok := pair[0].(*ssa.Convert); ok {
+									secs = cv.X
+								}
+							}
 						}
+					}
+					if secs != nil && floatLowerBound(secs, ret.Block(), 0) >= 1 {
+						nOK++
 					}
 				}
 			}
+			okMax = nRet > 0 && nRet == nOK
 		}
 		if !okMax {
 			bad = true
@@ -259,34 +275,44 @@ func ruleTimeParams(r *Run) {
 	oc := r.Ob("PV-CONST", "main defaults", "--since defaults to the 6h the flag's help shows; the default step is floor((end-start) seconds / 250) seconds, at least 1s; a plain number of --step is seconds")
 	{
 		bad := false
-		// since default constant in parseTimeRange
+		// since default constant in parseTimeRange: the duration that is negated and added to
+		// form the default start (x.Add(-since)); its constant leaf is the default
 		var sinceConst int64 = -1
-		allInstrs(ptr, func(in ssa.Instruction) {
-			if phi, ok := in.(*ssa.Phi); ok && phi.Comment == "since" {
-				for _, e := range phi.Edges {
-					if c, ok := constInt(e); ok {
-						sinceConst = c
+		for _, c := range callsIn(ptr) {
+			if !callIs(c, "time", "(Time).Add") || len(c.Common().Args) != 2 {
+				continue
+			}
+			neg, ok := c.Common().Args[1].(*ssa.UnOp)
+			if !ok || neg.Op != token.SUB {
+				continue
+			}
+			for _, lv := range valueLeaves(neg.X) {
+				if cv, ok := constInt(lv); ok {
+					sinceConst = cv
+				}
+			}
+		}
+		// the flag default string of the flag variable whose value is handed to parseTimeRange
+		// as the `since` argument (4th), wherever that variable is called
+		help := ""
+		for _, gf := range funcGroup(qc) {
+			for _, c := range callsIn(gf) {
+				if c.Common().StaticCallee() != ptr || len(c.Common().Args) != 4 {
+					continue
+				}
+				cell := flagCellOf(c.Common().Args[3])
+				if cell == nil {
+					continue
+				}
+				for _, st := range storesTo(cell) {
+					if k, ok := st.Val.(*ssa.Call); ok && len(k.Call.Args) == 1 {
+						if sv, ok := constStr(stripConv(k.Call.Args[0])); ok {
+							help = sv
+						}
 					}
 				}
 			}
-		})
-		// the flag default string of the `since` flag in queryCmd
-		help := ""
-		allInstrs(qc, func(in ssa.Instruction) {
-			st, ok := in.(*ssa.Store)
-			if !ok {
-				return
-			}
-			al, ok := st.Addr.(*ssa.Alloc)
-			if !ok || al.Comment != "since" {
-				return
-			}
-			if c, ok := st.Val.(*ssa.Call); ok && len(c.Call.Args) == 1 {
-				if s, ok := constStr(stripConv(c.Call.Args[0])); ok {
-					help = s
-				}
-			}
-		})
+		}
 		hd, err := time.ParseDuration(help)
 		if sinceConst < 0 || err != nil || int64(hd) != sinceConst {
 			bad = true
@@ -323,7 +349,8 @@ func ruleTimeParams(r *Run) {
 		// end.Sub(start)
 		for _, c := range callsIn(dst) {
 			if callIs(c, "time", "(Time).Sub") {
-				if rootName(c.Common().Args[0]) != "end" || rootName(c.Common().Args[1]) != "start" {
+				// defaultStep(start, end): the second parameter minus the first
+				if len(dst.Params) != 2 || unspill(c.Common().Args[0]) != ssa.Value(dst.Params[1]) || unspill(c.Common().Args[1]) != ssa.Value(dst.Params[0]) {
 					bad = true
 					oc.Fail(r.pos(c.Pos()), "defaultStep measures %s.Sub(%s), expected end.Sub(start)", rootName(c.Common().Args[0]), rootName(c.Common().Args[1]))
 				}
@@ -489,14 +516,56 @@ func ruleTimeParams(r *Run) {
 				}
 			}
 		}
-		// fractional branch rounds
-		round := false
-		for _, c := range callsIn(pts) {
-			if callIs(c, "math", "Round") {
-				round = true
+		// fractional branch rounds: every nanosecond argument of time.Unix that derives from
+		// math.Modf's fraction passes through math.Round on the way
+		round, unrounded := false, false
+		for _, gf := range funcGroup(pts) {
+			for _, c := range callsIn(gf) {
+				if !callIs(c, "time", "Unix") || len(c.Common().Args) != 2 {
+					continue
+				}
+				var visit func(v ssa.Value, rounded bool, depth int, seen map[ssa.Value]bool)
+				visit = func(v ssa.Value, rounded bool, depth int, seen map[ssa.Value]bool) {
+					if v == nil || depth > 16 || seen[v] {
+						return
+					}
+					seen[v] = true
+					switch x := v.(type) {
+					case *ssa.Convert:
+						visit(x.X, rounded, depth+1, seen)
+					case *ssa.ChangeType:
+						visit(x.X, rounded, depth+1, seen)
+					case *ssa.BinOp:
+						visit(x.X, rounded, depth+1, seen)
+						visit(x.Y, rounded, depth+1, seen)
+					case *ssa.Phi:
+						for _, e := range x.Edges {
+							visit(e, rounded, depth+1, seen)
+						}
+					case *ssa.UnOp:
+						if al, ok := x.X.(*ssa.Alloc); ok && x.Op == token.MUL {
+							for _, st := range storesTo(al) {
+								visit(st.Val, rounded, depth+1, seen)
+							}
+						}
+					case *ssa.Extract:
+						if mc, ok := x.Tuple.(*ssa.Call); ok && callIs(mc, "math", "Modf") && x.Index == 1 {
+							if rounded {
+								round = true
+							} else {
+								unrounded = true
+							}
+						}
+					case *ssa.Call:
+						if callIs(x, "math", "Round") {
+							visit(x.Call.Args[0], true, depth+1, seen)
+						}
+					}
+				}
+				visit(c.Common().Args[1], false, 0, map[ssa.Value]bool{})
 			}
 		}
-		if !round {
+		if !round || unrounded {
 			bad = true
 			ot.Fail(r.pos(pts.Pos()), "the fractional part is not rounded (math.Round): 1700000000.123 would denote an instant 1ms earlier than its nanosecond spelling")
 		}
@@ -623,4 +692,162 @@ func ruleTimeParams(r *Run) {
 			ow.OK("parseTimeRange(Now, start, end, since) -> parseStep(step, start, end) -> Eval{Start, End, Step, Limit}").At(r.pos(runE.Pos()))
 		}
 	}
+}
+
+// floatLowerBound computes a sound lower bound of a float64 SSA value as seen from block `at`
+// (-Inf when nothing is known). It understands constants, math.Max, math.Floor/Ceil/Round/Trunc of a
+// bounded value (integral bounds only), phis (minimum over edges, each refined by the
+// branch fact on that edge: `v < c` false gives v >= c, `v >= c` true likewise) and local cells.
+func floatLowerBound(v ssa.Value, at *ssa.BasicBlock, depth int) float64 {
+	ninf := math.Inf(-1)
+	if v == nil || depth > 10 {
+		return ninf
+	}
+	if c, ok := constOf(v); ok && (c.Kind() == constant.Float || c.Kind() == constant.Int) {
+		f, _ := constant.Float64Val(c)
+		return f
+	}
+	switch x := v.(type) {
+	case *ssa.Call:
+		pkg, name := calleePkgName(x)
+		if pkg != "math" {
+			return ninf
+		}
+		switch name {
+		case "Max":
+			a, b := floatLowerBound(x.Call.Args[0], at, depth+1), floatLowerBound(x.Call.Args[1], at, depth+1)
+			// NaN operands: math.Max(NaN, c) is NaN; the first operand here is a finite quotient in the
+			// code the rule is applied to, and NaN is outside what a bound can express: stay with max.
+			return math.Max(a, b)
+		case "Floor", "Trunc", "Round":
+			lb := floatLowerBound(x.Call.Args[0], at, depth+1)
+			if lb == math.Trunc(lb) {
+				return lb
+			}
+			return math.Floor(lb)
+		case "Ceil":
+			return floatLowerBound(x.Call.Args[0], at, depth+1)
+		}
+	case *ssa.Phi:
+		lb := math.Inf(1)
+		for i, e := range x.Edges {
+			pred := x.Block().Preds[i]
+			b := floatLowerBound(e, pred, depth+1)
+			// refine by facts that hold on the edge pred -> phi block and at pred
+			facts := factsAt(pred)
+			if f, ok := edgeFact(pred, x.Block()); ok {
+				facts = append(facts, normFact(f))
+			}
+			for _, f := range facts {
+				bo, ok := f.Cond.(*ssa.BinOp)
+				if !ok {
+					continue
+				}
+				if bo.X == e {
+					if c, ok := constOf(bo.Y); ok {
+						cf, _ := constant.Float64Val(c)
+						if (bo.Op == token.LSS && !f.Truth) || (bo.Op == token.GEQ && f.Truth) || (bo.Op == token.GTR && f.Truth) {
+							b = math.Max(b, cf)
+						}
+					}
+				}
+				if bo.Y == e {
+					if c, ok := constOf(bo.X); ok {
+						cf, _ := constant.Float64Val(c)
+						if (bo.Op == token.GTR && !f.Truth) || (bo.Op == token.LEQ && f.Truth) || (bo.Op == token.LSS && f.Truth) {
+							b = math.Max(b, cf)
+						}
+					}
+				}
+			}
+			lb = math.Min(lb, b)
+		}
+		return lb
+	case *ssa.UnOp:
+		if al, ok := x.X.(*ssa.Alloc); ok && x.Op == token.MUL {
+			lb := math.Inf(1)
+			sts := storesTo(al)
+			if len(sts) == 0 {
+				return ninf
+			}
+			for _, st := range sts {
+				lb = math.Min(lb, floatLowerBound(st.Val, st.Block(), depth+1))
+			}
+			return lb
+		}
+	}
+	return ninf
+}
+
+// valueLeaves: phi leaves, looking through loads of local cells (all stores).
+func valueLeaves(v ssa.Value) []ssa.Value {
+	var out []ssa.Value
+	seen := map[ssa.Value]bool{}
+	var visit func(v ssa.Value, d int)
+	visit = func(v ssa.Value, d int) {
+		if v == nil || seen[v] || d > 10 {
+			return
+		}
+		seen[v] = true
+		switch x := v.(type) {
+		case *ssa.Phi:
+			for _, e := range x.Edges {
+				visit(e, d+1)
+			}
+			return
+		case *ssa.UnOp:
+			if al, ok := x.X.(*ssa.Alloc); ok && x.Op == token.MUL {
+				for _, st := range storesTo(al) {
+					visit(st.Val, d+1)
+				}
+				return
+			}
+		}
+		out = append(out, v)
+	}
+	visit(v, 0)
+	return out
+}
+
+// flagCellOf: the local variable (Alloc in the enclosing function) behind an expression such as
+// *flagVar.Val evaluated in a closure: loads and field selections are stripped, a free variable is
+// resolved to the cell the closure was created with.
+func flagCellOf(v ssa.Value) *ssa.Alloc {
+	for d := 0; d < 12 && v != nil; d++ {
+		switch x := v.(type) {
+		case *ssa.UnOp:
+			if x.Op != token.MUL {
+				return nil
+			}
+			v = x.X
+		case *ssa.FieldAddr:
+			v = x.X
+		case *ssa.Field:
+			v = x.X
+		case *ssa.Alloc:
+			return x
+		case *ssa.FreeVar:
+			fn := x.Parent()
+			idx := -1
+			for i, fv := range fn.FreeVars {
+				if fv == x {
+					idx = i
+				}
+			}
+			par := fn.Parent()
+			if par == nil || idx < 0 {
+				return nil
+			}
+			var bound ssa.Value
+			allInstrs(par, func(in ssa.Instruction) {
+				if mc, ok := in.(*ssa.MakeClosure); ok && mc.Fn == ssa.Value(fn) && idx < len(mc.Bindings) {
+					bound = mc.Bindings[idx]
+				}
+			})
+			v = bound
+		default:
+			return nil
+		}
+	}
+	return nil
 }
